@@ -53,6 +53,7 @@ type Config struct {
 	SenderLoc         string // SenderLocationID / TargetLocationID of the session
 	TargetLoc         string
 	SQLTemplate       string // with FileDir: use the SQL store on a private copy of this sqlite database file
+	OutCap            int    // extra capacity of the outbound channel (one event may transmit more than 512 messages)
 }
 
 func (c Config) String() string {
@@ -768,6 +769,7 @@ type Event struct {
 	// the LinesOfText group count (33)
 	SendType string
 	SendNews bool
+	SendEmpty bool // the application message carries no body field at all
 	// FailWrite: during this send the k-th write of the session's file store fails (file-store worlds only)
 	FailWrite int
 	// Behind: a second inbound message already buffered in the inbound channel while In is handled (pipelined by
@@ -873,7 +875,7 @@ func (w *World) Apply(e *Event) (obs []Obs) {
 func (w *World) applySync(e *Event) {
 	switch e.K {
 	case "connect":
-		w.out = make(chan []byte, 512)
+		w.out = make(chan []byte, 512+w.Cfg.OutCap)
 		w.in = make(chan quickfix.VerifFixIn, 1)
 		w.Conn++
 		w.OutOpen = true
@@ -1013,7 +1015,7 @@ func (w *World) applyLoop(e *Event) {
 	l := w.Loop
 	switch e.K {
 	case "connect":
-		w.out = make(chan []byte, 512)
+		w.out = make(chan []byte, 512+w.Cfg.OutCap)
 		w.in = make(chan quickfix.VerifFixIn, 1)
 		w.Conn++
 		w.OutOpen = true
